@@ -91,7 +91,7 @@ def shortestDigits (bits : UInt64) : Nat × Int := Id.run do
       let okLo := clo > 0 && inside clo
       let okHi := inside (clo + 1)
       if okLo && okHi then
-        best := (if dist clo ≤ dist (clo + 1) then clo else clo + 1, k); found := true
+        best := (if dist clo < dist (clo + 1) then clo else clo + 1, k); found := true   -- a tie goes up, as in core::num::flt2dec
       else if okLo then best := (clo, k); found := true
       else if okHi then best := (clo + 1, k); found := true
   -- strip trailing zeros
